@@ -236,9 +236,30 @@ static void optional_decode_special(Special& s) {
 }
 
 struct Greedy { int tag = 0; Greedy() = default; Greedy(const Greedy&) = default; Greedy(Greedy&&) = default; Greedy& operator=(const Greedy&) = default; Greedy& operator=(Greedy&&) = default; template <typename U, typename = std::enable_if_t<!std::is_same<std::decay_t<U>, Greedy>::value>> Greedy(U&&) : tag(99) {} };
+// Result<E, void> / Status<void>: the value-less specialisation is its own class; every operation over every pair of states (no error, error X, error Y)
+template <typename RV, typename Err> static void void_result_pairs(Special& s, const char* tn, Err none, Err x, Err y) {
+  const Err states[3] = {none, x, y};
+  auto state_ok = [&](const RV& r, Err want) { return r.error() == want && r.has_error() == (want != none) && (bool)r == (want == none); };
+  s.begin(fmt("%s/all-state-pairs", tn));
+  for (Err d0 : states) for (Err s0 : states) {
+    const std::string w = fmt("%s: destination state %d, source state %d", tn, (int)d0, (int)s0);
+    { RV src(s0); RV dst(d0); dst = std::move(src); s.expect(state_ok(dst, s0), "model:Result.move-assign", w + ": after dst = std::move(src) the destination does not report the source's state");
+      s.expect(state_ok(src, none), "model:Result.moved-from", w + fmt(": after dst = std::move(src) the source reports error %d instead of none", (int)src.error())); }
+    { RV src(s0); RV dst(d0); dst = src; s.expect(state_ok(dst, s0) && state_ok(src, s0), "model:Result.copy-assign", w + ": after dst = src the two do not both report the source's state"); }
+    { RV src(s0); RV dst(std::move(src)); s.expect(state_ok(dst, s0), "model:Result.move-construct", w + ": move-constructed object does not report the source's state"); s.expect(state_ok(src, none), "model:Result.moved-from", w + ": the source of a move construction still reports an error"); }
+    { RV src(s0); RV dst(src); s.expect(state_ok(dst, s0) && state_ok(src, s0), "model:Result.copy-construct", w + ": copy differs from the source"); }
+    { RV dst(d0); dst = s0; s.expect(state_ok(dst, s0), "model:Result.assign-error", w + ": after dst = error the destination reports something else"); dst.clear(); s.expect(state_ok(dst, none), "model:Result.clear", w + ": clear() left an error"); }
+    { RV a(d0); RV& alias = a; a = std::move(alias); s.expect(state_ok(a, d0), "model:Result.self-move", w + ": self move-assignment changed the state"); a = alias; s.expect(state_ok(a, d0), "model:Result.self-copy", w + ": self copy-assignment changed the state"); }
+    { RV a(d0), b(s0); std::swap(a, b); s.expect(state_ok(a, s0) && state_ok(b, d0), "model:Result.swap", w + ": std::swap did not exchange the states"); }
+    { std::vector<RV> vec; vec.emplace_back(d0); vec.emplace_back(s0); for (int i = 0; i < 20; i++) vec.emplace_back(); s.expect(state_ok(vec[0], d0) && state_ok(vec[1], s0) && state_ok(vec[21], none), "model:Result.vector-growth", w + ": states changed while a vector grew"); }
+  }
+  s.end();
+}
 static void optional_special() {
   Special s{"c13"};
   optional_decode_special(s);
+  void_result_pairs<nop::Result<E, void>, E>(s, "Result<E,void>", E::None, E::X, E::Y);
+  void_result_pairs<nop::Status<void>, nop::ErrorStatus>(s, "Status<void>", nop::ErrorStatus::None, nop::ErrorStatus::IOError, nop::ErrorStatus::ReadLimitReached);
   static const uint8_t pats[] = {0x00, 0x01, 0x7f, 0xaa, 0xff};
   for (uint8_t pat : pats) {
     auto nm = [&](const char* n) { return fmt("%s/pattern-%02x", n, pat); };
